@@ -203,6 +203,19 @@ def w_sho(case, led):
                         d, at = dev(M, np.diag(eig ** k))
                         led.check(d <= t, "post:BasisSHO.op_mat:dvr_potential_diagonal", "BasisSHO.op_mat",
                                   f"{sym!r} (dvr): not diag(x_i^{k}) of the DVR grid points (off by {d:.3e})", key + ("dvrdiag",), fields, rep, nontriv)
+        # DVR: powers of x with non-integer and negative exponents are the function of the grid points (origin moved far enough for a positive grid)
+        if dvr and not general:
+            x0p = 6.0 * np.sqrt(max(nbas, 1) / omega) + 2.0
+            bp, e = quiet(ba.BasisSHO, "v", omega, nbas, x0=x0p, dvr=True)
+            if e is None and np.all(np.asarray(bp.dvr_x) > 0):
+                xp = np.asarray(bp.dvr_x)
+                for sym, power in (("x^0.5", 0.5), ("x^1.5", 1.5), ("x^-0.5", -0.5), ("x^-1", -1.0), ("x^2.0", 2.0)):
+                    M, e = quiet(bp.op_mat, sym)
+                    want = np.diag(xp ** power)
+                    ok = e is None and np.asarray(M).shape == want.shape and dev(np.asarray(M), want)[0] <= tol(max(1.0, np.abs(want).max()), nbas)
+                    led.check(ok, "post:BasisSHO.op_mat:dvr_real_exponent_is_the_function_of_the_grid", "BasisSHO.op_mat",
+                              f"{sym!r} (dvr, x0={x0p:.3g}): not diag(x_i^{power})" + (f"; raised {e!r}" if e else ""), base_key + ("dvrpow", sym),
+                              dict(base_fields, symbol=sym), dict(base_rep, symbol=sym, x0=x0p), nbas >= 1)
         # canonical commutator on the block unaffected by truncation
         if "x" in mats and "p" in mats and nbas >= 1:
             X, P = mats["x"], mats["p"]
